@@ -89,15 +89,14 @@ Theorem C16_double_int_exact : forall n displ, 0 <= n < 2 ^ 31 -> 0 <= displ < 2
 Proof. exact double_int_exact. Qed.
 Print Assumptions C16_double_int_exact.
 
-(* Pack (with the repaired space test `size > outsize - *position`): for EVERY position and buffer size in [0, 2^31) (the
-   range of the `int` parameters; also position > outsize) and every count with count * size < 2^31 (the domain of
-   sc_MPI_Pack_size, whose product is an `int`: F-C16d): succeeds iff position + count * size <= outsize; then the elements'
-   data bytes are laid out at *position and *position advances by count * size; otherwise nothing changes.  No copy
-   leaves a buffer. *)
+(* Pack (with the repaired space test `size > outsize - *position` and the repaired Pack_size): for EVERY count, position and
+   buffer size in [0, 2^31) (the range of the `int` parameters; also position > outsize, also a byte count count * size that is
+   not representable in an int): succeeds iff position + count * size <= outsize; then the elements' data bytes are laid out at
+   *position and *position advances by count * size; otherwise (in particular for count * size >= 2^31) the call is refused
+   and NOTHING changes.  No copy leaves a buffer. *)
 Theorem C16_pack : forall inbuf incount t outbuf outsize pos,
-  valid_dt t -> 0 <= incount -> contiguous_ok t incount 0 ->
+  valid_dt t -> 0 <= incount < 2 ^ 31 -> contiguous_ok t incount 0 ->
   incount * extent t <= len inbuf -> len outbuf = outsize -> 0 <= pos < 2 ^ 31 -> outsize < 2 ^ 31 ->
-  incount * type_size t < 2 ^ 31 ->
   let '(rc, out', pos') := sc_pack inbuf incount t outbuf outsize pos in
   (rc = SUCCESS <-> pos + incount * type_size t <= outsize) /\
   (rc <> SUCCESS -> out' = Some outbuf /\ pos' = pos) /\
@@ -106,9 +105,8 @@ Proof. exact pack_spec. Qed.
 Print Assumptions C16_pack.
 
 Theorem C16_unpack : forall inbuf insize pos outbuf outcount t,
-  valid_dt t -> 0 <= outcount -> contiguous_ok t outcount 0 ->
+  valid_dt t -> 0 <= outcount < 2 ^ 31 -> contiguous_ok t outcount 0 ->
   len inbuf = insize -> outcount * extent t <= len outbuf -> 0 <= pos < 2 ^ 31 -> insize < 2 ^ 31 ->
-  outcount * type_size t < 2 ^ 31 ->
   let '(rc, out', pos') := sc_unpack inbuf insize pos outbuf outcount t in
   (rc = SUCCESS <-> pos + outcount * type_size t <= insize) /\
   (rc <> SUCCESS -> out' = Some outbuf /\ pos' = pos) /\
@@ -116,8 +114,13 @@ Theorem C16_unpack : forall inbuf insize pos outbuf outcount t,
 Proof. exact unpack_spec. Qed.
 Print Assumptions C16_unpack.
 
-Theorem C16_pack_size : forall incount t, valid_dt t -> 0 <= incount -> incount * type_size t < 2 ^ 31 ->
-  sc_pack_size incount t = (SUCCESS, Some (incount * type_size t)) /\ sc_type_size t = (SUCCESS, Some (type_size t)).
+(* Pack_size: the number of bytes when it is representable in an `int`; otherwise ERR_NO_SPACE (and *size keeps the size of one
+   element).  MPI's own MPI_Pack_size returns a wrapped number with MPI_SUCCESS there (OpenMPI 4: INT_MIN, 0): the emulation
+   deliberately refuses instead.  Type_size: the size. *)
+Theorem C16_pack_size : forall incount t, valid_dt t -> 0 <= incount < 2 ^ 31 ->
+  sc_pack_size incount t = (if incount * type_size t <? 2 ^ 31 then (SUCCESS, Some (incount * type_size t))
+                            else (ERR_NO_SPACE, Some (type_size t))) /\
+  sc_type_size t = (SUCCESS, Some (type_size t)).
 Proof. exact pack_size_spec. Qed.
 Print Assumptions C16_pack_size.
 
@@ -135,21 +138,27 @@ Theorem C16_pack_overflow_old_refuted :
 Proof. exact pack_overflow_old_refuted. Qed.
 Print Assumptions C16_pack_overflow_old_refuted.
 
-(* F-C16d: `count * size < 2^31` in C16_pack / C16_unpack is the exact domain: the product of sc_MPI_Pack_size is an `int`.
-   Without it the statement is false of the code: 2^28 long doubles (4 GiB) are ACCEPTED into a buffer of 100 bytes (the
-   product wraps to 0): SUCCESS, nothing packed, position unchanged *)
-Theorem C16_pack_size_overflow_refuted :
-  let t := h_MPI_LONG_DOUBLE in let incount := 2 ^ 28 in let outsize := 100 in let pos := 0 in
-  valid_dt t /\ 0 <= incount < 2 ^ 31 /\ 0 <= pos <= outsize /\ outsize < 2 ^ 31 /\ contiguous_ok t incount 0 /\
-  outsize < pos + incount * type_size t /\ pack_bytes incount t = 0 /\
-  forall inbuf outbuf, len outbuf = outsize ->
-    sc_pack inbuf incount t outbuf outsize pos = (SUCCESS, Some outbuf, pos).
-Proof. exact pack_size_overflow_refuted. Qed.
-Print Assumptions C16_pack_size_overflow_refuted.
+(* F-C16d (repaired): regression guard.  Pack BEFORE that repair (sc_pack_nocheck: the `int` product of Pack_size unchecked):
+   2^28 long doubles (4 GiB) into 100 bytes: product 0, ACCEPTED, nothing packed; 2^27 long doubles (2 GiB) into INT_MAX bytes:
+   product INT_MIN, the space test passes, the copy leaves every buffer, position INT_MIN.  The repaired sc_pack refuses both
+   and changes nothing; Pack_size refuses from count * 16 = 2^31 on and is exact one element below. *)
+Theorem C16_pack_size_overflow_old_refuted :
+  let t := h_MPI_LONG_DOUBLE in
+  valid_dt t /\ type_size t = 16 /\
+  (forall inbuf outbuf, len outbuf = 100 ->
+     sc_pack_nocheck inbuf (2 ^ 28) t outbuf 100 0 = (SUCCESS, Some outbuf, 0) /\
+     sc_pack inbuf (2 ^ 28) t outbuf 100 0 = (ERR_NO_SPACE, Some outbuf, 0)) /\
+  (forall inbuf outbuf, len outbuf = 2 ^ 31 - 1 -> len inbuf = 2 ^ 31 ->
+     sc_pack_nocheck inbuf (2 ^ 27) t outbuf (2 ^ 31 - 1) 0 = (SUCCESS, None, - 2 ^ 31) /\
+     sc_pack inbuf (2 ^ 27) t outbuf (2 ^ 31 - 1) 0 = (ERR_NO_SPACE, Some outbuf, 0)) /\
+  sc_pack_size (2 ^ 28) t = (ERR_NO_SPACE, Some 16) /\ sc_pack_size (2 ^ 27) t = (ERR_NO_SPACE, Some 16) /\
+  sc_pack_size (2 ^ 27 - 1) t = (SUCCESS, Some (2 ^ 31 - 16)).
+Proof. exact pack_size_overflow_old_refuted. Qed.
+Print Assumptions C16_pack_size_overflow_old_refuted.
 
 (* code and position without the buffers (used by the run for positions near INT_MAX) are those of sc_pack *)
 Theorem C16_pack_codes : forall inbuf incount t outbuf outsize pos,
-  len outbuf = outsize -> u64 (pack_bytes incount t) <= len inbuf ->
+  len outbuf = outsize -> u64 (pack_size_value incount t) <= len inbuf ->
   let '(rc, out', pos') := sc_pack inbuf incount t outbuf outsize pos in
   let '(rc2, pos2, over) := sc_pack_codes incount t outsize pos in
   rc = rc2 /\ pos' = pos2 /\ (over = true <-> out' = None).
@@ -214,46 +223,51 @@ Theorem C16_gen_nocopy : stub_exscan = SUCCESS /\ stub_bcast = SUCCESS /\ stub_b
 Proof. exact gen_nocopy. Qed.
 Print Assumptions C16_gen_nocopy.
 
-(* Type_size stores (int) sc_mpi_sizeof (t); Pack_size calls Type_size (t, size) and multiplies what that stored *)
+(* Type_size stores (int) sc_mpi_sizeof (t); Pack_size calls Type_size (t, size); with what that stored: the
+   representability guard `incount > 0 && *size > INT_MAX / incount`, the product, the code *)
 Theorem C16_gen_sizes : forall incount t sizeptr r,
   sc_type_size t = (let '(v, rc) := stub_type_size t in (rc, Some v)) /\
   let '(v, _) := stub_type_size t in
-  stub_pack_size incount t sizeptr r v = (1, t, sizeptr, pack_bytes incount t, SUCCESS) /\
-  sc_pack_size incount t = (SUCCESS, Some (pack_bytes incount t)).
+  stub_pack_size incount t sizeptr r v = (1, t, sizeptr, pack_size_value incount t, pack_size_code incount t) /\
+  sc_pack_size incount t = (pack_size_code incount t, Some (pack_size_value incount t)).
 Proof. intros; split; [exact (gen_type_size t)|exact (gen_pack_size incount t sizeptr r)]. Qed.
 Print Assumptions C16_gen_sizes.
 
-(* Pack / Unpack: Pack_size (count, t, comm, &size) is called; with size = what it stores: the space test in `int`
-   arithmetic, the memcpy, the advance of *position, the returned code - for all addresses and all integers *)
-Theorem C16_gen_pack : forall inbuf incount t outbuf outsize pos comm r,
-  let size := pack_bytes incount t in
+(* Pack / Unpack: Pack_size (count, t, comm, &size) is called; for EVERY code r it returns and EVERY size it stores: a code
+   other than SUCCESS is returned at once and nothing is touched; else the space test in `int` arithmetic, the memcpy, the
+   advance of *position, the returned code - for all addresses and all integers *)
+Theorem C16_gen_pack : forall inbuf incount t outbuf outsize pos comm r size,
   stub_pack inbuf incount t outbuf outsize pos comm r size =
-  if pack_refuses pos size outsize then (1, incount, t, comm, 0, 0, 0, 0, pos, ERR_NO_SPACE)
+  if negb (r =? SUCCESS) then (1, incount, t, comm, 0, 0, 0, 0, pos, r)
+  else if pack_refuses pos size outsize then (1, incount, t, comm, 0, 0, 0, 0, pos, ERR_NO_SPACE)
   else let '(d, s, n) := pack_copy pos size in
        (1, incount, t, comm, 1, outbuf + d, inbuf + s, n, pack_advance pos size, SUCCESS).
 Proof. exact gen_pack. Qed.
 Print Assumptions C16_gen_pack.
 
-Theorem C16_gen_unpack : forall inbuf insize pos outbuf outcount t comm r,
-  let size := pack_bytes outcount t in
+Theorem C16_gen_unpack : forall inbuf insize pos outbuf outcount t comm r size,
   stub_unpack inbuf insize pos outbuf outcount t comm r size =
-  if pack_refuses pos size insize then (1, outcount, t, comm, 0, 0, 0, 0, pos, ERR_NO_SPACE)
+  if negb (r =? SUCCESS) then (1, outcount, t, comm, 0, 0, 0, 0, pos, r)
+  else if pack_refuses pos size insize then (1, outcount, t, comm, 0, 0, 0, 0, pos, ERR_NO_SPACE)
   else let '(d, s, n) := unpack_copy pos size in
        (1, outcount, t, comm, 1, outbuf + d, inbuf + s, n, pack_advance pos size, SUCCESS).
 Proof. exact gen_unpack. Qed.
 Print Assumptions C16_gen_unpack.
 
-(* the model's Pack / Unpack ARE the generated control flow, with the generated memcpy applied to the two lists *)
+(* the model's Pack / Unpack ARE the generated control flow, fed with the code and the size of the generated Pack_size, with
+   the generated memcpy applied to the two lists *)
 Theorem C16_gen_pack_model : forall inbuf incount t outbuf outsize pos,
   sc_pack inbuf incount t outbuf outsize pos =
-  let '(_, _, _, _, called, dst, src, n, pos', rc) := stub_pack 0 incount t 0 outsize pos 0 0 (pack_bytes incount t) in
+  let '(_, _, _, size, r) := stub_pack_size incount t 0 0 (fst (stub_type_size t)) in
+  let '(_, _, _, _, called, dst, src, n, pos', rc) := stub_pack 0 incount t 0 outsize pos 0 r size in
   (rc, if called =? 1 then memcpy_at outbuf dst inbuf src n else Some outbuf, pos').
 Proof. exact gen_pack_model. Qed.
 Print Assumptions C16_gen_pack_model.
 
 Theorem C16_gen_unpack_model : forall inbuf insize pos outbuf outcount t,
   sc_unpack inbuf insize pos outbuf outcount t =
-  let '(_, _, _, _, called, dst, src, n, pos', rc) := stub_unpack 0 insize pos 0 outcount t 0 0 (pack_bytes outcount t) in
+  let '(_, _, _, size, r) := stub_pack_size outcount t 0 0 (fst (stub_type_size t)) in
+  let '(_, _, _, _, called, dst, src, n, pos', rc) := stub_unpack 0 insize pos 0 outcount t 0 r size in
   (rc, if called =? 1 then memcpy_at outbuf dst inbuf src n else Some outbuf, pos').
 Proof. exact gen_unpack_model. Qed.
 Print Assumptions C16_gen_unpack_model.
@@ -349,8 +363,8 @@ Proof. exact gen_sizeof_mpi. Qed.
 Print Assumptions C16_gen_sizeof_mpi.
 
 (* ================= histories ================= *)
-(* (item_ok: valid datatype, count >= 0, count * size bytes of data, count * size < 2^31; buffers shorter than 2^31 bytes:
-   `outsize` is an int; NO bound on the sum of the items)
+(* (item_ok: valid datatype, 0 <= count < 2^31, count * size bytes of data - NOT necessarily representable in an int: such an
+   item is refused; buffers shorter than 2^31 bytes: `outsize` is an int; NO bound on the sum of the items)
    Pack several items one after the other into one buffer (each call continues at the position the previous one left),
    then Unpack them with the same datatypes and counts from the same start: every Unpack delivers the bytes that were
    packed, the position after the i-th Pack equals the position after the i-th Unpack for every i, the final positions
@@ -371,7 +385,7 @@ Proof. exact pack_seq_refuses. Qed.
 Print Assumptions C16_pack_seq_refuses.
 
 Theorem C16_pack_twice_is_pack_once : forall t n1 n2 d1 d2 buf pos, item_ok (t, n1, d1) -> item_ok (t, n2, d2) ->
-  0 <= pos <= len buf -> len buf < 2 ^ 31 -> len d1 + len d2 < 2 ^ 31 ->
+  0 <= pos <= len buf -> len buf < 2 ^ 31 -> n1 + n2 < 2 ^ 31 ->
   match pack_seq [(t, n1, d1); (t, n2, d2)] buf pos, pack_seq [(t, n1 + n2, d1 ++ d2)] buf pos with
   | Some (b, p, _), Some (b', p', _) => b = b' /\ p = p'
   | None, None => True
@@ -388,8 +402,8 @@ Theorem C16_pack_boundary : forall t n d buf pos, item_ok (t, n, d) -> 0 <= pos 
 Proof. exact pack_boundary. Qed.
 Print Assumptions C16_pack_boundary.
 
-Theorem C16_unpack_boundary : forall t n o buf pos, valid_dt t -> 0 <= n -> n * type_size t <= len o ->
-  n * type_size t < 2 ^ 31 -> 0 <= pos <= len buf -> len buf < 2 ^ 31 ->
+Theorem C16_unpack_boundary : forall t n o buf pos, valid_dt t -> 0 <= n < 2 ^ 31 -> n * type_size t <= len o ->
+  0 <= pos <= len buf -> len buf < 2 ^ 31 ->
   (pos + n * type_size t = len buf ->
    sc_unpack buf (len buf) pos o n t = (SUCCESS, Some (drop pos buf ++ drop (n * type_size t) o), len buf)) /\
   (pos + n * type_size t = len buf + 1 -> sc_unpack buf (len buf) pos o n t = (ERR_NO_SPACE, Some o, pos)) /\
